@@ -24,7 +24,7 @@ BOUNDS = {'quick': dict(derivative='1..4', order='1..6', offset_sets='60 sampled
 def describe(rep):
     rep.func(get_finite_difference_stencil, get_finite_difference_matrix, get_1d_grid, get_steps)
     rep.explanation = __doc__
-    rep.rule = 'case = (derivative, order, stencil type or offset set (offset arrays also in int8/int16/int32/uint8/float32/float64), boundary condition, size, dimension); one SMT query (QF_LRA) per case over all polynomial data in the unit box'
+    rep.rule = 'case = (derivative, order, stencil type or offset set (offset arrays also in int8/int16/int32/uint8/float32/float64; offsets up to 10^7 apart), boundary condition, size, dimension); one SMT query (QF_LRA) per case over all polynomial data in the unit box'
     rep.assume('weights come from numpy.linalg.solve (not symbolic): tolerance 1e-9 scaled by sum |w_i| |s_i|^degree (backward-error scaling)',
                'grid spacing dx = 1/4 (a power of two, so scaling by dx^-derivative is exact)', 'polynomial coefficients and boundary values in [-1, 1]')
     rep.out_of_scope('symbolic offsets / orders (weights come from LAPACK)', 'cupy', 'sizes beyond stencil width + 4')
